@@ -47,7 +47,11 @@ RECURSIVE Join(_, _)
 Join(sq, i) == IF i > Len(sq) THEN "" ELSE (IF i > 1 THEN "," ELSE "") \o sq[i] \o Join(sq, i + 1)
 ValidSeq(sq) == Len(sq) = 4 /\ (\A i \in 1..4 : NumOf(sq[i]) >= 0) /\ NumOf(sq[1]) <= NumOf(sq[3]) /\ NumOf(sq[2]) <= NumOf(sq[4])
 InvalidGen == { "[" \o Join(sq, 1) \o "]" : sq \in { q \in UNION { [1..n -> Elems] : n \in 0..5 } : ~ValidSeq(q) } }
-InvalidRaw == InvalidGen \cup { "[10,10,-10,-10]", "[-200,0,10,10]", "[0,-100,10,10]", "[0,0,10]", "[0,0,10,10,20]", "[a,b,c,d]", "[0,0,190,10]", "[0,0,10,95]" }
+\* "numbers" that are no ordinary numbers in every position: NaN compares false with everything, so a range check written with
+\* the wrong polarity lets it through; infinities are out of range
+InvalidSpecial == { "[NaN,0,10,10]", "[0,NaN,10,10]", "[0,0,NaN,10]", "[0,0,10,NaN]", "[nan,0,10,10]", "[0,0,10,nan]", "[NaN,NaN,NaN,NaN]",
+                    "[inf,0,10,10]", "[0,0,inf,10]", "[-inf,0,10,10]", "[0,-inf,10,10]", "[0,0,10,inf]", "[1e999,0,10,10]", "[0,0,10,1e999]" }
+InvalidRaw == InvalidGen \cup InvalidSpecial \cup { "[10,10,-10,-10]", "[-200,0,10,10]", "[0,-100,10,10]", "[0,0,10]", "[0,0,10,10,20]", "[a,b,c,d]", "[0,0,190,10]", "[0,0,10,95]" }
 
 SourceSets == {
     << [tiles |-> << <<0,0,0,101>>, <<1,0,0,102>>, <<1,1,1,103>>, <<2,1,1,104>>, <<2,2,1,105>>, <<2,3,3,106>>, <<3,0,7,107>>, <<3,4,3,108>> >>, tc |-> "none"],
